@@ -23,11 +23,20 @@ PROPS = {
             "explanation": "oracle C07.spec_decoder_reads_serializer_output: extracted independent spec decoder on the real serializer's bytes"},
     "C08": {"components": ["chunk"], "rule": CHUNK_RULE,
             "explanation": "oracle C08.drop_roundtrip: real serializer output minus any subset of droppable packets decodes to the kept messages"},
+    "C09": {"components": ["server"],
+            "rule": "server: operation scripts = peer chunk streams from an independent Python emulator (connect/createStream/publish/play/close/delete/media/"
+                    "@setDataFrame/ping/control/unknown/malformed, random partitions) interleaved with application calls (accept/reject valid, stale, unknown ids; "
+                    "send media/metadata; ping; finish), half of them clean canonical workflows, clock readings incl. 2^24 and 2^32 crossings; non-trivial = at least three operations",
+            "explanation": "trace oracles on the real events: request ids fresh, publish/play requests only after an accepted connection, accept/reject exactly once, finished events <= accepted requests per key, media only for an accepted publish key"},
     "C13": {"components": ["msg"],
             "rule": "msg: every message variant with boundary u32 field values, random AMF0 argument lists (incl. inexpressible ones), all 9 user-control events; "
                     "all 256 type ids with boundary, well-formed and random bodies, AMF0 bodies (incl. ECMA arrays, truncations) under ids 18/20/15/17; "
                     "non-trivial = at least three tokens",
             "explanation": "oracles: C13.layout_is_spec (real bytes = extracted spec layout), C13.roundtrip (real decode(real encode m) = m), unknown_passthrough, amf3 aliases, chunk_size_bound"},
+    "C17": {"components": ["server", "client"],
+            "rule": "sessions: operation scripts (see C09/C10) plus acknowledgement scripts: windows 1..100 announced and re-announced mid-stream, "
+                    "bursts of small messages delivered in fixed pieces of 1..W+1 bytes; non-trivial = at least three operations",
+            "explanation": "oracle C17.ack_exactly_when_due: from call sizes and the calls where the peer's window announcements complete (spec decoder), recompute in which calls an Acknowledgement is due and its value; compare with the real packets"},
     "C16": {"components": ["chunk"], "rule": CHUNK_RULE,
             "explanation": "oracle C06.foreign_stream restricted to interleaved streams (every second fde case)"},
     "C04": {"components": ["amf0"], "rule": AMF0_RULE,
